@@ -3,7 +3,7 @@
 # property, undo; prints CAUGHT / MISSED / PATCH-DOES-NOT-APPLY per seed
 cd /verif
 for d in seeded/*/; do
-  name=$(basename $d); id=${name:0:3}; [ $name = C10d ] && id=C14
+  name=$(basename $d); id=${name:0:3}; [ $name = C10d ] && id=C14;
   if ! git -C /repo apply --check /verif/$d/patch.diff 2>/dev/null; then echo "$name PATCH-DOES-NOT-APPLY"; continue; fi
   git -C /repo apply /verif/$d/patch.diff
   out=$(./check $id quick 2>&1); rc=$?
